@@ -48,6 +48,11 @@ def parse_tsan(text):
         if 'WARNING: ThreadSanitizer' not in blk:
             continue
         kind = re.search(r'WARNING: ThreadSanitizer: ([^\(\n]+)', blk).group(1).strip().replace(' ', '-')
+        if re.search(r'SUMMARY: ThreadSanitizer: data race \S*tzset\.c:\d+ in tzset_internal', blk):
+            # mktime()/localtime_r() update the time-zone state under glibc's own tzset_lock; libc is not instrumented, so TSan does not
+            # see that lock (both functions are documented MT-Safe): a report inside tzset_internal is not a race of the library
+            yield None, blk
+            continue
         loc = re.search(r"Location is global '([^']+)'", blk)
         stacks = re.split(r'\n\s*\n', blk)
         fns = []
@@ -120,7 +125,7 @@ def work(job):
             for key, blk in parse_tsan(open(lf, errors='replace').read()):
                 reports += 1
                 if key is None:
-                    r.stats['tsan_reports_outside_library (not judged)'] += 1
+                    r.stats['tsan_reports_inside_libc (tzset under libc\'s own lock, or no library frame; not judged)'] += 1
                     continue
                 r.violate(key, 'ThreadSanitizer: %s' % key, case, blk[:3500])
         r.stats['tsan_report_blocks'] += reports
